@@ -52,7 +52,7 @@ def subsample(U, k, seed):
     groups = {}
     for i, d in enumerate(U):
         key = (d["opt"], d["nl"], d["cb"][0], d["obj"], d["flt"][0], d["flt"][1], all(p == "fixed" for p in d["bp"]), "bad" in d["bp"],
-               ("narrow" in d["bp"]) and not d["sc"], d["x0"] in ("onupper", "above", "mixed", "far"))
+               ("narrow" in d["bp"]) and not d["sc"], d["x0"] in ("onupper", "above", "mixed", "far"), d["lin"] in ("two", "mixed"), d["x0"] == "zero")
         groups.setdefault(key, []).append(i)
     keys = sorted(groups)
     for g in keys:
